@@ -50,7 +50,8 @@ NAMES_OK = [b"Host", b"Accept", b"X-Foo", b"User-Agent", b"x", b"X_y.z!", b"Cont
             b"Trailer", b"Content-Encoding", b"TE", b"Via"]
 NAMES_ODD = [b"", b"A B", b"A\tB", b"N\x7fme", b"N\xc3\xa9", b"\xff", b"A\x00", b" Lead", b"Trail "]
 VALUES_OK = [b"x", b"", b"www.example.com", b"a, b, c", b"  padded\t ", b"text/plain; charset=utf-8",
-             b"5", b"a:b:c", b"\"quoted, comma\"", b"~!@#$%^&*()", b"a" * 40, b"gzip", b"chunked", b",", b",,a,"]
+             b"5", b"a:b:c", b"\"quoted, comma\"", b"~!@#$%^&*()", b"a" * 40, b"gzip", b"chunked", b",", b",,a,",
+             b"close", b"keep-alive", b"Close, Upgrade", b"100-continue", b"identity"]
 VALUES_ODD = [b"\x7f", b"a\x00b", b"\xc3\xa9", b"\xff", b"a\x0bb", b"a\rb", b"a\nb", b"\x01"]
 CL_NAMES = [b"Content-Length", b"content-length", b"CONTENT-LENGTH", b"Content-length", b"cOnTeNt-LeNgTh"]
 TE_NAMES = [b"Transfer-Encoding", b"transfer-encoding", b"TRANSFER-ENCODING", b"Transfer-encoding"]
@@ -88,7 +89,13 @@ def gen_field(rng, p_odd=0.08, allow_fold=True):
 
 
 def gen_fields(rng, p_odd=0.08, maxn=4):
-    return [gen_field(rng, p_odd) for _ in range(rng.randint(0, maxn))]
+    fs = [gen_field(rng, p_odd) for _ in range(rng.randint(0, maxn))]
+    if rng.random() < 0.04:
+        # a long header line, around the 1000-byte default limit of requests (responses have no limit)
+        total = rng.choice([990, 997, 998, 999, 1000, 1001, 1002, 1010, 1500])
+        name = rng.choice([b"X-Long", b"Cookie"])
+        fs.insert(rng.randint(0, len(fs)), name + b": " + b"v" * max(0, total - len(name) - 2 - 2))
+    return fs
 
 
 def block(fields):
@@ -243,6 +250,8 @@ def gen_response(rng, p_odd=0.08, framing=None):
     meta = {"framing": framing}
     if framing in ("cl", "both"):
         payload = gen_body(rng)
+        if framing == "both" and rng.random() < 0.4:
+            payload = gen_chunked(rng, 0.0)[0]       # Content-Length wins: these bytes are the body verbatim
         fields.insert(rng.randint(0, len(fields)), rng.choice(CL_NAMES) + b": " + cl_value(rng, len(payload), p_odd))
         body = payload
         if rng.random() < 0.4:
